@@ -521,14 +521,19 @@ def exit_and_guard(m: P1Model):
     if not pro_guard:
         for pp in exits:
             if "G" not in pp.lits and pp.lits.get("N") is True:
-                res.append(Result("bad", "cap", "exit-without-guard", "read() can return without evaluating the length guard: on a stream whose chunks end where this exit is taken the collected lines grow without bound",
+                # an unrecognised ordering test that looks at the buffer / the collected lines may well be the guard written in another way (`unread_length`, a cached sum)
+                maybe = any(g_[0] == "cmp" and g_[1] in ("Lt", "LtE", "Gt", "GtE") and m.mentions(g_, lambda s_: s_ in (m.f0(m.buffer), m.f0(m.raw))) for _, _, g_ in pp.unknown)
+                res.append(Result("und" if maybe else "bad", "cap", "exit-without-guard", "read() can return without evaluating the length guard: on a stream whose chunks end where this exit is taken the collected lines grow without bound",
                                   ploc(m, pp), witness=f"[{pp.guard_text()}] => {pp.post.brief()}"))
     # guard sites
     guards = [(pp.guard_info, ploc(m, pp), pp, pp.lits["G"]) for pp in exits if "G" in pp.lits]
     sites = {}
     for gi, ln, owner, val in guards + pro_guard:
         sites.setdefault(ln, []).append((gi, owner, val))
-    if not sites:
+    if not sites and any(g_[0] == "cmp" and g_[1] in ("Lt", "LtE", "Gt", "GtE") and m.mentions(g_, lambda s_: s_ in (m.f0(m.buffer), m.f0(m.raw))) for pp in exits for _, _, g_ in pp.unknown):
+        res.append(Result("und", "cap", "no-guard", "no length guard in a recognised form (an ordering test on the buffer / the collected lines that the rule cannot read is present)", fn.node.lineno))
+        return res
+    elif not sites:
         res.append(Result("bad", "cap", "no-guard", "no length guard on buffered/collected data: an unterminated line or readout is retained without bound", fn.node.lineno))
         return res
     for ln, lst in sites.items():
